@@ -1,8 +1,8 @@
 (* Properties/C01.v - Request fidelity: the server sees exactly the request the API calls describe.
    Only statements, `exact`, and Print Assumptions.
    Model: Model/Url.v (net/url escaping, parseRequestURL), Model/H1Req.v (request writers). *)
-From ReqV Require Import Lib.Bytes Model.Url Model.HeaderCollect Model.BodyFraming Model.H1Req.
-From ReqV Require Import Proofs.UrlProofs Proofs.BodyFramingProofs Proofs.H1ReqProofs Proofs.H1EndToEnd Proofs.CrossProto.
+From ReqV Require Import Lib.Bytes Model.Url Model.HeaderCollect Model.BodyFraming Model.H1Req Model.H2Body.
+From ReqV Require Import Proofs.UrlProofs Proofs.BodyFramingProofs Proofs.H1ReqProofs Proofs.H1EndToEnd Proofs.CrossProto Proofs.H2BodyProofs.
 From ReqV Require Gen.C01Tables.
 From Coq Require Import Permutation.
 
@@ -283,6 +283,48 @@ Theorem C01_json_content_type_matches : json_ct = Gen.C01Tables.json_content_typ
 Proof. exact json_content_type_matches. Qed.
 Print Assumptions C01_json_content_type_matches.
 
+(* --- several requests on one connection (round 3): whatever requests share an HTTP/1.1 connection,
+   a reader takes them apart exactly where the writer put the boundaries; [exchange_ok] = the
+   premises of C01_h1_end_to_end for each of them --- *)
+Theorem C01_h1_sequence_roundtrip : forall xs rest, Forall exchange_ok xs ->
+  exists vs, Forall2 (fun x v => described (req_of x) = Some v) xs vs /\
+             observe_seq (length xs) (concat (map wire_of xs) ++ rest) = Some (vs, rest).
+Proof. exact h1_sequence_roundtrip. Qed.
+Print Assumptions C01_h1_sequence_roundtrip.
+
+(* Expect: 100-continue: a connection that may serve another request has received the whole body;
+   a body is withheld only on a connection that is not used again *)
+Theorem C01_expect_reuse_needs_body : forall req_close ans head framed,
+  conn_reusable_after req_close ans = true ->
+  expect_sends_body req_close ans = true /\ exchange_wire head framed req_close ans = head ++ framed.
+Proof. exact expect_reuse_needs_body. Qed.
+Print Assumptions C01_expect_reuse_needs_body.
+
+Theorem C01_expect_body_withheld_only_when_closing : forall req_close ans,
+  expect_sends_body req_close ans = false -> conn_reusable_after req_close ans = false.
+Proof. exact expect_body_withheld_only_when_closing. Qed.
+Print Assumptions C01_expect_body_withheld_only_when_closing.
+
+(* --- HTTP/2 DATA framing, for EVERY schedule of body reads (incl. data together with io.EOF) and
+   EVERY schedule of flow-control allowances: the payloads are the bytes read, exactly one frame
+   carries END_STREAM and it is the last one --- *)
+Theorem C01_h2_body_frames_faithful : forall reads alw,
+  concat (map fst (h2_body_frames reads alw)) = concat (map fst (upto_eof reads)) /\
+  exists front last, h2_body_frames reads alw = front ++ [last] /\ snd last = true /\ all_open front.
+Proof. exact h2_body_frames_faithful. Qed.
+Print Assumptions C01_h2_body_frames_faithful.
+
+(* --- requests sharing one HTTP/3 connection: the writer's shared buffer carries nothing from one
+   request to the next, in whatever order their critical sections are serialised --- *)
+Theorem C01_h3w_independent : forall qs, h3w_run [] qs = map h3_lines qs.
+Proof. exact h3w_independent. Qed.
+Print Assumptions C01_h3w_independent.
+
+Theorem C01_h3w_order_irrelevant : forall qs qs', Permutation qs qs' ->
+  Permutation (combine qs (h3w_run [] qs)) (combine qs' (h3w_run [] qs')).
+Proof. exact h3w_order_irrelevant. Qed.
+Print Assumptions C01_h3w_order_irrelevant.
+
 (* non-vacuity: a template with two holes, overlapping client/request keys and hostile values *)
 Example C01_nonvacuous :
   let ts := [TLit (bs "/users/"); THole (bs "id"); TLit (bs "/files/"); THole (bs "name")] in
@@ -317,3 +359,9 @@ Example C01_end_to_end_nonvacuous :
   no_framing_keys (a_rhdr a) = true /\ no_framing_keys (a_chdr a) = true /\
   option_map v_target (described a) = Some (bs "/api/u/..%2Fx%20y?q=a%26b").
 Proof. vm_compute. repeat split. Qed.
+
+(* a last read of 5 bytes with EOF against allowances 2, 2, 1: three frames, END_STREAM on the third *)
+Example C01_h2_body_nonvacuous :
+  h2_body_frames [(bs "abc", false); (bs "defgh", true); (bs "ignored", false)] [3; 2; 2; 1] =
+  [(bs "abc", false); (bs "de", false); (bs "fg", false); (bs "h", true)].
+Proof. vm_compute. reflexivity. Qed.
